@@ -267,6 +267,27 @@ pub fn c16(out: &mut Vec<String>, rng: &mut Rng, tier: &str) {
             out.push(xf_line::<f32>("arith", "scale", &format!("{}", e32), conf, &Data::One(b32.clone()), conf, &Data::One(b32.iter().map(|x| x * k32).collect())));
         }
     }
+    // negation of samples that sit on a large offset (relative spread 1e-9 … 1e-7 in f64, 1e-4 … 1e-3 in f32):
+    // whatever the sign of the mean, the interval of the negated data is the exact mirror image
+    for (i, (basev, spread)) in [(4.0e8f64, 4.45f64), (3.5e8, 4.45), (1234567890.0, 4.45), (1.0e8, 0.3), (7.7e9, 40.0), (2.5e7, 0.05)].iter().enumerate() {
+        let n = 5 + 3 * i;
+        let xs: Vec<f64> = (0..n).map(|_| basev + (rng.unit() - 0.5) * 2.0 * spread).collect();
+        for prod in ["arith", "paired", "unpaired"] {
+            let conf = rand_conf(rng);
+            let d = if prod == "arith" {
+                Data::One(xs.clone())
+            } else if prod == "paired" {
+                Data::Two(xs.clone(), xs.iter().map(|_| (rng.unit() - 0.5) * spread * 0.1).collect())
+            } else {
+                Data::Two(xs.clone(), xs.iter().rev().take(n - 1).map(|x| x + spread * 0.3).collect())
+            };
+            out.push(xf_line::<f64>(prod, "neg", "0", conf, &d, conf.flipped(), &map1(&d, &|x| -x)));
+        }
+        let ys: Vec<f32> = (0..n).map(|_| (basev * 1e-4 * (1.0 + (rng.unit() - 0.5) * 4e-4)) as f32).collect();
+        let conf = rand_conf(rng);
+        let d = Data::One(ys.clone());
+        out.push(xf_line::<f32>("arith", "neg", "0", conf, &d, conf.flipped(), &map1(&d, &|x| -x)));
+    }
     c16_for::<f64>(out, rng, reps);
     c16_for::<f32>(out, rng, reps);
 }
